@@ -3,6 +3,7 @@ package model
 import (
 	"fmt"
 	"go/types"
+	"strings"
 
 	"github.com/reedom/convergen/pkg/option"
 	"github.com/reedom/convergen/pkg/util"
@@ -260,6 +261,10 @@ func NewTypecast(scope *types.Scope, imports util.ImportNames, t types.Type, inn
 		expr = t.String()
 	default:
 		return nil, false
+	}
+	if util.IsPtr(t) {
+		// A conversion to a pointer type needs parentheses: (*T)(x), not T(x) or *T(x).
+		expr = "(*" + strings.TrimPrefix(expr, "*") + ")"
 	}
 
 	return TypecastEntry{inner: inner, typ: t, expr: expr}, true
